@@ -117,6 +117,7 @@ func verifBrokerScenario(P, C int, rogue bool, symNAT bool) {
 		go func() {
 			var resp []byte
 			err := i.ProxyPolls(messages.Arg{Body: []byte{byte(p)}}, &resp)
+			verifapi.Assert(err == nil, "C02: a well-formed proxy poll is answered with an offer or 'no match' - never consumed by a client that must not be matched")
 			if err == nil && len(resp) == 3 && resp[0] == 'M' {
 				polls[p].matched, polls[p].offer, polls[p].relay = true, int(resp[1]), int(resp[2])
 				if verifapi.Bool("proxy.answers") {
